@@ -314,7 +314,9 @@ class _Norm:
 
 
 def normalise_function(fn: ast.FunctionDef) -> ast.FunctionDef:
-    """the function with accumulation loops rewritten (the node itself when none qualifies)"""
+    """the function with accumulation loops rewritten and straight-line re-assignments renamed
+    apart (the node itself when nothing qualifies)"""
+    fn = ssa_straightline(fn)
     if not any(isinstance(n, ast.For) for n in ast.walk(fn)):
         return fn
     new = copy.deepcopy(fn)
@@ -523,3 +525,61 @@ def nnf(e: ast.AST, neg: bool = False) -> ast.AST:
         return ast.copy_location(
             ast.Compare(e.left, [_NEG[type(e.ops[0])]()], e.comparators), e)
     return ast.copy_location(ast.UnaryOp(ast.Not(), e), e)
+
+
+def ssa_straightline(fn: ast.FunctionDef) -> ast.FunctionDef:
+    """Locals that are re-assigned only by plain top-level statements of the function body
+    (`x = a; x = f(x)`) are renamed apart: every version but the last gets a suffix, and each
+    use is renamed to the version that reaches it.  After this a single-assignment reading
+    of the function is exact for these names."""
+    params = {a.arg for a in fn.args.posonlyargs + fn.args.args + fn.args.kwonlyargs}
+    for extra in (fn.args.vararg, fn.args.kwarg):
+        if extra is not None:
+            params.add(extra.arg)
+    top_stores: Dict[str, int] = {}
+    for s in fn.body:
+        if isinstance(s, ast.Assign) and len(s.targets) == 1 and isinstance(s.targets[0], ast.Name):
+            top_stores[s.targets[0].id] = top_stores.get(s.targets[0].id, 0) + 1
+        elif isinstance(s, ast.AnnAssign) and isinstance(s.target, ast.Name) and \
+                s.value is not None:
+            top_stores[s.target.id] = top_stores.get(s.target.id, 0) + 1
+    all_stores = _count_stores(fn)
+    cands = {n for n, k in top_stores.items()
+             if k >= 2 and all_stores.get(n) == k and n not in params}
+    for n in ast.walk(fn):
+        if isinstance(n, (ast.Global, ast.Nonlocal)):
+            cands -= set(n.names)
+        # nested functions capture by name: leave such names alone
+        if isinstance(n, (ast.FunctionDef, ast.Lambda)) and n is not fn:
+            cands -= _names(n)
+    if not cands:
+        return fn
+    fn = copy.deepcopy(fn)
+    total = {n: top_stores[n] for n in cands}
+    version = {n: -1 for n in cands}      # -1: not yet assigned
+
+    def vname(n: str, v: int) -> str:
+        return n if v == total[n] - 1 else f'{n}__{v}'
+
+    def rename_loads(node: ast.AST) -> None:
+        for x in ast.walk(node):
+            if isinstance(x, ast.Name) and isinstance(x.ctx, ast.Load) and x.id in cands \
+                    and version[x.id] >= 0:
+                x.id = vname(x.id, version[x.id])
+    for s in fn.body:
+        tgt = None
+        if isinstance(s, ast.Assign) and len(s.targets) == 1 and \
+                isinstance(s.targets[0], ast.Name) and s.targets[0].id in cands:
+            tgt = s.targets[0]
+            rename_loads(s.value)
+        elif isinstance(s, ast.AnnAssign) and isinstance(s.target, ast.Name) and \
+                s.value is not None and s.target.id in cands:
+            tgt = s.target
+            rename_loads(s.value)
+        else:
+            rename_loads(s)
+        if tgt is not None:
+            base = tgt.id
+            version[base] += 1
+            tgt.id = vname(base, version[base])
+    return fn
